@@ -51,7 +51,9 @@ def rel_state(w):
 
     def one(x, peer):
         return (x.status.value, int(x.seq_sending) - int(peer.bitfield_pkt.current_seqnum), x.bitfield_pkt.bits,
-                age(x.last_recv_time), age(x.last_send_time), age(x.last_send_keep_alive_time),
+                age(x.last_recv_time), age(x.last_send_time),
+                # the keep-alive timer and any other stored time, whatever the attribute is called
+                tuple((k, age(v)) for k, v in sorted(vars(x).items()) if isinstance(v, float) and v > 500 and k not in ("last_recv_time", "last_send_time")),
                 tuple(sorted((int(k) - int(x.seq_sending), age(v)) for k, v in x.pending_acks.items())),
                 len(x.outgoing_messages), len(x.pending_retry_msg))
     net = tuple(sorted((d.dst == "s", d.release_tick - w.tickno, len(d.data)) for d in w.net))
@@ -326,6 +328,44 @@ def client_setter_work(arg):
     return (tuple(before), tuple(during), tuple(after)), viols
 
 
+def ka_change_work(arg):
+    """the keep-alive interval is CHANGED on a connected, idle client (and back): the very next gap already obeys the
+    new value - no datagram may be later than max(last emission + new interval, time of the call) + one send tick"""
+    ka0, ka1, frame, idle_before = arg
+    viols = {}
+    wit = {"part": "ka-change", "arg": list(arg)}
+
+    def flag(oracle, sig, msg):
+        viols.setdefault((oracle, sig), [0, wit, msg])[0] += 1
+    w = World(dt=frame, autoconnect=False, start_time=1024.0, server_cfg={"setConnectionTimeout": 30.0})
+    try:
+        ce = w.client_connect(0, before_connect=lambda cl: cl.setKeepAliveInterval(ka0))
+        w.run_until_connected(limit=int(3.0 / frame))
+        w.run(int(idle_before / frame))
+        mine = [d for d in w.all_sent if d.src == "c0"]
+        last = mine[-1].sent_time if mine else w.vt.now
+        t_set = w.vt.now
+        try:
+            ce.client.setKeepAliveInterval(ka1)
+        except Exception as e:
+            flag("setter-raises", "setKeepAliveInterval on a connected client raises %s" % type(e).__name__, repr(e))
+        n0 = len(w.all_sent)
+        w.run(int((max(ka0, ka1) + 0.5) / frame))
+        nxt = next((d.sent_time for d in w.all_sent[n0:] if d.src == "c0"), None)
+        bound = max(last + ka1, t_set) + max(frame, send_tick(frame)) + frame + EPS
+        if nxt is None or nxt > bound:
+            flag("setter-effect", "setKeepAliveInterval on a connected idle client only takes effect after the next datagram (%s)" % ("interval lowered" if ka1 < ka0 else "interval raised"),
+                 "interval %.2f -> %.2f at t=%.4f, last datagram at %.4f, next at %s, bound %.4f" % (ka0, ka1, t_set, last, nxt, bound))
+        if ka1 > ka0 and nxt is not None and nxt < last + ka1 - EPS and nxt > t_set + frame:
+            pass   # earlier than necessary is allowed
+        if not ce.client.connected() or w.clients[0].addr not in w.ctxt.connections:
+            flag("idle", "the link does not survive a change of the keep-alive interval", "client %s, server side %s" % (
+                w.clients[0].conn.status if w.clients[0].conn else None, "present" if w.clients[0].addr in w.ctxt.connections else "gone"))
+    finally:
+        w.close()
+    return tuple(arg), viols
+
+
 def server_setter_work(arg):
     order, frame = arg[:2]
     vals = {"setKeepAliveInterval": 0.5, "setConnectionTimeout": 1.5, "setTempConnectionTimeout": 0.5, "setMessageTimeout": 0.25, "setInterval": frame}
@@ -434,7 +474,7 @@ def run(tier, seed):
         fold(r[2])
     # jitter
     jit = [(ka, fr) for ka in (0.05, 0.1, 0.5) for fr in ((1.0 / 64, 1.0 / 32) if tier == "quick" else (1.0 / 128, 1.0 / 64, 1.0 / 60, 1.0 / 32))]
-    st = explore.explore_all("checks.c12", "jitter_scenario", jit, 0, time_budget=(120 if tier == "quick" else 900))
+    st = explore.explore_all("checks.c12", "jitter_scenario", jit, 0, time_budget=(900 if tier == "quick" else 1800))
     sig_counts = getattr(st, "sig_counts", {})
     for v in st.violations:
         key = (v["oracle"], v["sig"])
@@ -481,6 +521,9 @@ def run(tier, seed):
     res = core.pmap("checks.c12", "client_setter_work", cs_jobs)
     for r in res:
         fold(r[1])
+    kc_jobs = [(ka0, ka1, fr, idle) for ka0, ka1 in ((3.0, 0.1), (1.0, 0.25), (0.1, 1.0), (0.5, 0.05)) for fr in (1.0 / 64, 1.0 / 50) for idle in (0.3, 1.3)]
+    for r in core.pmap("checks.c12", "ka_change_work", kc_jobs):
+        fold(r[1])
     names = ["setKeepAliveInterval", "setConnectionTimeout", "setTempConnectionTimeout", "setMessageTimeout", "setInterval"]
     ss_jobs = [(o, 1.0 / 64) for o in (itertools.permutations(names) if tier == "thorough" else [tuple(names), tuple(reversed(names)), tuple(names[2:] + names[:2])])]
     big = {"setKeepAliveInterval": 2.0, "setConnectionTimeout": 7.5, "setTempConnectionTimeout": 3.5, "setMessageTimeout": 3.0}
@@ -491,12 +534,12 @@ def run(tier, seed):
         fold(r[1])
     for (oracle, sig), (cnt, wit, msg) in sorted(acc.items()):
         rep.add_violation(core.Violation(oracle, sig, wit, "%s [%d cases]" % (msg[:400], cnt)))
-    n_exec = len(idle_jobs) + st.executions + len(cut_jobs) + len(con_jobs) + len(cs_jobs) + len(ss_jobs)
+    n_exec = len(idle_jobs) + st.executions + len(cut_jobs) + len(con_jobs) + len(cs_jobs) + len(ss_jobs) + len(kc_jobs)
     rep.coverage = {
         "states": idle_states + st.points, "transitions": idle_states + st.steps, "traces_validated_against_impl": n_exec,
         "idle_configurations": len(idle_jobs), "idle_closed_cycles": len(closed), "idle_cycle_rows": closed[:40], "idle_horizon_only": open_rows,
         "jitter_executions": st.executions, "cut_cases": len(cut_jobs), "cut_outcomes": len(cut_out), "connect_cases": len(con_jobs),
-        "client_setter_cases": len(cs_jobs), "server_setter_cases": len(ss_jobs),
+        "client_setter_cases": len(cs_jobs), "server_setter_cases": len(ss_jobs), "keep_alive_change_cases": len(kc_jobs),
         "evaluations": n_exec, "distinct_nontrivial": len(closed) + len(cut_out) + len(st.outcomes) + len(cs_jobs),
         "rule": "idle: canonical state = ages + sequence numbers relative to the peer's window, per tick; a repeated state closes the graph (dyadic frames), otherwise a horizon is reported; "
                 "jitter: all 2^10 sequences of 1x/2x frames; cut: every tick phase of one keep-alive period x {both, c2s, s2c}; setters: every subset x order x before / during-the-handshake / after split",
@@ -514,6 +557,8 @@ def replay(witness):
     if part == "idle":
         r = idle_work((witness["keep_alive"], witness["connection_timeout"], witness["frame"], 30.0, witness.get("latency_ticks", 1)))
         v = r[2]
+    elif part == "ka-change":
+        v = ka_change_work(tuple(witness["arg"]))[1]
     elif part == "cut":
         v = cut_work((witness["keep_alive"], witness["connection_timeout"], witness["frame"], witness["phase"], witness["direction"]))[1]
     elif part == "connect":
